@@ -39,6 +39,7 @@ type World struct {
 	inlSites map[*ssa.Function][]*ssa.Call // helper -> its call sites
 	cur      *FG                           // graph whose splices give access paths their context
 	gsub     *FG                           // substitutions of helpers with a single call site (context-free)
+	curLock  int                           // >0: FGI does not change cur (withArgs)
 }
 
 var libPkgs = []string{"actor", "remote", "cluster", "ringbuffer", "safemap"}
